@@ -4,6 +4,7 @@
 From Coq Require Import ZArith QArith List.
 From SA Require Import Base.Prelude Index.Index View.View Solr.MM Solr.MM_Spec Solr.MM_Proofs
   Solr.Edismax Solr.Edismax_Spec Solr.Edismax_Proofs.
+From SA Require Import View.View_Phrase2 Solr.Edismax_Indexed.
 Import ListNotations.
 
 (* wf_query: every field has n rows and score vectors of length n, single-term scores are non-negative,
@@ -24,3 +25,11 @@ Proof. exact and_is_100pct. Qed.
 
 Example C09_dismax_example : dismax (1 # 2) [3; 1; 2] == 3 + (1 # 2) * 3.
 Proof. vm_compute. reflexivity. Qed.
+
+(* ================= premise-free, for frames of freshly indexed columns =================
+   qf_calls_ok and select_ok are PROVED for fresh fields (Solr/Edismax_Indexed.v). *)
+Theorem C09_indexed_query_field_score : forall idf n q, wf_query idf n q -> fresh_fields n q ->
+  eq_pf q = [] -> eq_pf2 q = [] -> eq_pf3 q = [] ->
+  api_veq (edismax idf n q) (edismax_spec idf n q).
+Proof. exact C09_indexed. Qed.
+Print Assumptions C09_indexed_query_field_score.
